@@ -339,8 +339,36 @@ def check(repo, rep, tier):
             pc = proves[0]
             extra = []
             auto_seen = False
+            assigned_here = {x.id for x in ast.walk(final.node) if isinstance(x, ast.Name) and not isinstance(x.ctx, ast.Load)}
             for path in paths_to(final.node, pc):
-                for t, pol in path.conds:
+                # feasibility: a test that is decided by a constant bound on this very path, or that contradicts an earlier
+                # test of the same (unassigned) expression on this path, does not constrain the run
+                consts, seen_, feasible, live = {}, {}, True, []
+                for st_ in path.steps:
+                    if st_[0] == "assign":
+                        if isinstance(st_[2], ast.Constant):
+                            consts[st_[1]] = st_[2].value
+                        else:
+                            consts.pop(st_[1], None)
+                        continue
+                    _k, t, pol = st_
+                    core, p2 = t, pol
+                    while isinstance(core, ast.UnaryOp) and isinstance(core.op, ast.Not):
+                        core, p2 = core.operand, not p2
+                    if isinstance(core, ast.Name) and core.id in consts:
+                        if bool(consts[core.id]) != p2:
+                            feasible = False
+                        continue            # decided on this path
+                    names_ = {x.id for x in ast.walk(core) if isinstance(x, ast.Name)}
+                    if not (names_ & assigned_here):
+                        key_ = norm(core)
+                        if key_ in seen_ and seen_[key_] != p2:
+                            feasible = False
+                        seen_[key_] = p2
+                    live.append((t, pol))
+                if not feasible:
+                    continue
+                for t, pol in live:
                     tt = norm(resolve_locals(final.node, t))
                     if tt in ("autoprove", "runtime.autoprove", "pysnark.runtime.autoprove") and pol:
                         auto_seen = True
